@@ -646,50 +646,6 @@ Proof.
   apply nth_error_app_len. rewrite map_length. reflexivity.
 Qed.
 
-Lemma set_val_string_spec h k nm gp gd gc arr v1 cv os v2 spare value :
-  let g := mkGOpt nm gp gd gc (Some (mkGVals arr (v1 ++ mkGVal cv os :: v2) spare)) in
-  SepC h (cells_gopt g) ->
-  exists h' os' out,
-    let g' := mkGOpt nm gp gd gc (Some (mkGVals arr (v1 ++ mkGVal cv os' :: v2) spare)) in
-    set_val_string (rec_of_gopt g) cv value (mkst h k)
-      = Ok (rec_of_gopt g', out) (mkst h' (k - nreq_value value)) /\
-    SepC h' (cells_gopt g') /\ PostC h (cells_gopt g) h' (cells_gopt g') /\
-    match out with
-    | Failed => hits k (nreq_value value) /\ os' = os
-    | Done _ => ~ hits k (nreq_value value) /\ val_of os' = value
-    end.
-Proof.
-  intros g HS. subst g. pose proof HS as [HH HN].
-  pose proof (Holds_bound _ _ HH) as HB.
-  destruct os as [[oa ost]|]; proj; hsplit HH.
-  - destruct HH as (Hnm & Hp & Hd & Hc & Harr & Hv1 & Hcv & Hoa & Hv2). bounds. distinct.
-    unfold set_val_string; proj.
-    destruct value as [s|]; cbn [nreq_value].
-    + destruct k as [|[|k]].
-      1,3: eexists; exists (Some (length h, s)); eexists; cbn zeta;
-        (split; [steps|]); (split; [sep_tac|]); (split; [post_tac|]);
-        (split; [unfold hits; lia| reflexivity]).
-      exists h, (Some (oa, ost)), Failed. cbn zeta. split; [steps|].
-      split; [proj; exact HS|]. split; [proj; apply PostC_refl; apply HS|].
-      split; [unfold hits; lia|reflexivity].
-    + eexists; exists None; eexists; cbn zeta.
-      (split; [steps|]); (split; [sep_tac|]); (split; [post_tac|]);
-        (split; [unfold hits; lia| reflexivity]).
-  - destruct HH as (Hnm & Hp & Hd & Hc & Harr & Hv1 & Hcv & Hv2). bounds. distinct.
-    unfold set_val_string; proj.
-    destruct value as [s|]; cbn [nreq_value].
-    + destruct k as [|[|k]].
-      1,3: eexists; exists (Some (length h, s)); eexists; cbn zeta;
-        (split; [steps|]); (split; [sep_tac|]); (split; [post_tac|]);
-        (split; [unfold hits; lia| reflexivity]).
-      exists h, None, Failed. cbn zeta. split; [steps|].
-      split; [proj; exact HS|]. split; [proj; apply PostC_refl; apply HS|].
-      split; [unfold hits; lia|reflexivity].
-    + eexists; exists None; eexists; cbn zeta.
-      (split; [steps|]); (split; [sep_tac|]); (split; [post_tac|]);
-        (split; [unfold hits; lia| reflexivity]).
-Qed.
-
 Lemma PostC_trans h L h1 L1 h2 L2 :
   PostC h L h1 L1 -> PostC h1 L1 h2 L2 -> PostC h L h2 L2.
 Proof.
@@ -728,6 +684,300 @@ Proof.
 Qed.
 
 
+(* ---- three structural rules: frame, allocation, release ---------------- *)
+Lemma SepC_app_l h L X : SepC h (L ++ X) -> SepC h L.
+Proof.
+  intros [HH HN]. apply Holds_app in HH. split; [apply HH|].
+  intros a. specialize (HN a). rewrite cnt_app in HN. lia.
+Qed.
+
+(* a step that is specified on the footprint L leaves a disjoint owned part X alone *)
+Lemma frame_rule_r h L h' L' X :
+  SepC h (L ++ X) -> SepC h' L' -> PostC h L h' L' ->
+  SepC h' (L' ++ X) /\ PostC h (L ++ X) h' (L' ++ X).
+Proof.
+  intros [HH HN] [HH' HN'] (P1 & P2 & P3 & P4).
+  apply Holds_app in HH. destruct HH as [HL HX].
+  pose proof (Holds_bound _ _ HX) as HBX.
+  assert (HD : forall a, cnt L a + cnt X a <= 1)
+    by (intros a; specialize (HN a); rewrite cnt_app in HN; exact HN).
+  assert (HX' : Holds h' X).
+  { eapply Holds_frame; [exact HX|]. intros a Ha. apply P2; [apply HBX; exact Ha|].
+    specialize (HD a). lia. }
+  split; [split|].
+  - apply Holds_app. split; assumption.
+  - intros a. rewrite cnt_app.
+    specialize (HN' a). specialize (HD a). specialize (P4 a). specialize (HBX a). lia.
+  - split; [lia|]. split; [|split]; intros a; rewrite ?cnt_app.
+    + intros Hlt Hz. apply P2; lia.
+    + intros Hl. specialize (P3 a Hl). lia.
+    + intros Ha. specialize (P4 a). lia.
+Qed.
+
+(* a granted request: the new block is owned *)
+Lemma alloc_rule h L b :
+  SepC h L ->
+  SepC (h ++ [Live b]) (L ++ [(length h, b)]) /\ PostC h L (h ++ [Live b]) (L ++ [(length h, b)]).
+Proof.
+  intros [HH HN]. pose proof (Holds_bound _ _ HH) as HB.
+  split; [split|].
+  - apply Holds_app. split.
+    + eapply Holds_frame; [exact HH|]. intros a Ha. apply get_app_lt. apply HB; exact Ha.
+    + apply Holds_cons. split; [apply get_app_len; reflexivity | apply Holds_nil].
+  - intros a. rewrite cnt_app, cnt_cons, cnt_nil. specialize (HN a). specialize (HB a).
+    pose proof (b2n_spec (length h) a). lia.
+  - split; [rewrite app_length; cbn [length]; lia|]. split; [|split]; intros a.
+    + intros Hlt Hz. apply get_app_lt; exact Hlt.
+    + intros Hl. rewrite cnt_app, cnt_cons, cnt_nil.
+      pose proof (live_lt _ _ Hl) as Hlt. rewrite app_length in Hlt; cbn [length] in Hlt.
+      pose proof (b2n_spec (length h) a). lia.
+    + rewrite cnt_app, cnt_cons, cnt_nil. intros Ha. pose proof (b2n_spec (length h) a). lia.
+Qed.
+
+(* free of an owned block: it leaves the footprint and is not live any more *)
+Lemma free_rule h L a b :
+  SepC h (L ++ [(a, b)]) ->
+  get h a = Live b /\ SepC (upd h a Freed) L /\ PostC h (L ++ [(a, b)]) (upd h a Freed) L.
+Proof.
+  intros [HH HN]. apply Holds_app in HH. destruct HH as [HL Ha].
+  apply Holds_cons in Ha. destruct Ha as [Ha _].
+  pose proof (get_live_lt _ _ _ Ha) as Hlt.
+  assert (HD : forall x, cnt L x + b2n (a =? x) <= 1).
+  { intros x. specialize (HN x). rewrite cnt_app, cnt_cons, cnt_nil in HN. lia. }
+  split; [exact Ha|]. split; [split|].
+  - eapply Holds_frame; [exact HL|]. intros x Hx. apply get_upd_ne.
+    specialize (HD x). pose proof (b2n_spec a x). lia.
+  - intros x. specialize (HD x). lia.
+  - split; [rewrite length_upd; lia|].
+    split; [|split]; intros x; rewrite ?cnt_app, ?cnt_cons, ?cnt_nil.
+    + intros Hx Hz. apply get_upd_ne. pose proof (b2n_spec a x). lia.
+    + intros Hl. pose proof (live_lt _ _ Hl) as Hx. rewrite length_upd in Hx.
+      destruct (Nat.eq_dec a x) as [E|E].
+      * exfalso. subst x. destruct Hl as [b' Hb']. rewrite get_upd_eq in Hb' by auto. discriminate.
+      * pose proof (b2n_spec a x). lia.
+    + intros Hx. lia.
+Qed.
+
+(* store into an owned block: only its recorded contents change *)
+Lemma store_rule h L a b b' :
+  SepC h (L ++ [(a, b)]) ->
+  get h a = Live b /\ SepC (upd h a (Live b')) (L ++ [(a, b')]) /\
+  PostC h (L ++ [(a, b)]) (upd h a (Live b')) (L ++ [(a, b')]).
+Proof.
+  intros [HH HN]. apply Holds_app in HH. destruct HH as [HL Ha].
+  apply Holds_cons in Ha. destruct Ha as [Ha _].
+  pose proof (get_live_lt _ _ _ Ha) as Hlt.
+  assert (HD : forall x, cnt L x + b2n (a =? x) <= 1).
+  { intros x. specialize (HN x). rewrite cnt_app, cnt_cons, cnt_nil in HN. lia. }
+  split; [exact Ha|]. split; [split|].
+  - apply Holds_app. split.
+    + eapply Holds_frame; [exact HL|]. intros x Hx. apply get_upd_ne.
+      specialize (HD x). pose proof (b2n_spec a x). lia.
+    + apply Holds_cons. split; [apply get_upd_eq; auto | apply Holds_nil].
+  - intros x. rewrite cnt_app, cnt_cons, cnt_nil. specialize (HD x). lia.
+  - split; [rewrite length_upd; lia|].
+    split; [|split]; intros x; rewrite ?cnt_app, ?cnt_cons, ?cnt_nil.
+    + intros Hx Hz. apply get_upd_ne. pose proof (b2n_spec a x). lia.
+    + intros Hl. pose proof (live_lt _ _ Hl) as Hx. rewrite length_upd in Hx.
+      pose proof (b2n_spec a x). lia.
+    + intros Hx. lia.
+Qed.
+
+(* footprints that own the same blocks, listed in a different order *)
+Definition Equiv (L L' : cells) : Prop :=
+  (forall h, Holds h L <-> Holds h L') /\ (forall a, cnt L a = cnt L' a).
+
+Lemma Equiv_sym L L' : Equiv L L' -> Equiv L' L.
+Proof. intros [A B]. split; intros x; [symmetry; apply A | symmetry; apply B]. Qed.
+Lemma Equiv_refl L : Equiv L L.
+Proof. split; intros; reflexivity. Qed.
+
+Lemma SepC_equiv h L L' : Equiv L L' -> SepC h L -> SepC h L'.
+Proof. intros [A B] [HH HN]. split; [apply A; exact HH|]. intros a. rewrite <- B. apply HN. Qed.
+
+Lemma PostC_equiv h L1 L1' h' L2 L2' :
+  Equiv L1 L1' -> Equiv L2 L2' -> PostC h L1 h' L2 -> PostC h L1' h' L2'.
+Proof.
+  intros [_ B1] [_ B2] (P1 & P2 & P3 & P4).
+  split; [exact P1|]. split; [|split]; intros a; rewrite <- ?B1, <- ?B2; auto.
+Qed.
+
+Lemma Holds_nil_iff h : Holds h [] <-> True.
+Proof. split; [trivial | intros _; apply Holds_nil]. Qed.
+
+Ltac equiv :=
+  split;
+  [ let h := fresh "h" in
+    intros h; repeat first [rewrite Holds_app | rewrite Holds_cons | rewrite Holds_nil_iff]; tauto
+  | let a := fresh "a" in intros a; cnorm; lia ].
+
+(* the last three statements of cfg_opt_setnstr, on a footprint with the value
+   cell cv in focus: the copy ns (owned, outside the option) becomes the string
+   of cv; the old string os is released; no request is made *)
+Lemma set_val_string_rule h k o1 A B cv (os ns : option gstr) :
+  SepC h ((A ++ (cv, BVal (ptr_of os)) :: cells_ostr os ++ B) ++ cells_ostr ns) ->
+  exists h',
+    set_val_string o1 cv (ptr_of ns) (mkst h k) = Ok (o1, Done tt) (mkst h' k) /\
+    SepC h' (A ++ (cv, BVal (ptr_of ns)) :: cells_ostr ns ++ B) /\
+    PostC h ((A ++ (cv, BVal (ptr_of os)) :: cells_ostr os ++ B) ++ cells_ostr ns)
+          h' (A ++ (cv, BVal (ptr_of ns)) :: cells_ostr ns ++ B).
+Proof.
+  intros HS.
+  remember (A ++ B ++ cells_ostr ns) as R eqn:HR.
+  assert (E0 : Equiv ((A ++ (cv, BVal (ptr_of os)) :: cells_ostr os ++ B) ++ cells_ostr ns)
+                     ((R ++ cells_ostr os) ++ [(cv, BVal (ptr_of os))])) by (subst R; equiv).
+  assert (E1 : Equiv ((R ++ cells_ostr os) ++ [(cv, BVal (ptr_of ns))])
+                     ((R ++ [(cv, BVal (ptr_of ns))]) ++ cells_ostr os)) by equiv.
+  assert (E2 : Equiv (R ++ [(cv, BVal (ptr_of ns))])
+                     (A ++ (cv, BVal (ptr_of ns)) :: cells_ostr ns ++ B)) by (subst R; equiv).
+  clear HR.
+  pose proof (SepC_equiv _ _ _ E0 HS) as HS0.
+  destruct (store_rule _ _ _ _ (BVal (ptr_of ns)) HS0) as (Hcv & HS1 & HP1).
+  pose proof (SepC_equiv _ _ _ E1 HS1) as HS1'.
+  pose proof (PostC_equiv _ _ _ _ _ _ (Equiv_sym _ _ E0) E1 HP1) as HP1'.
+  destruct os as [[oa ost]|]; cbn [cells_ostr cells_str ptr_of fst snd] in *.
+  - destruct (free_rule _ _ _ _ HS1') as (Hoa & HS2 & HP2).
+    exists (upd (upd h cv (Live (BVal (ptr_of ns)))) oa Freed).
+    split.
+    { unfold set_val_string.
+      eapply bind_intro; [eapply load_val_ok; exact Hcv|]. cbn beta iota.
+      eapply bind_intro; [eapply store_ok; exact Hcv|]. cbn beta iota.
+      unfold free_ptr. eapply bind_intro; [eapply free_ok; exact Hoa|]. reflexivity. }
+    split; [eapply SepC_equiv; [exact E2|exact HS2]|].
+    eapply PostC_trans; [exact HP1'|].
+    eapply PostC_equiv; [apply Equiv_refl | exact E2 | exact HP2].
+  - rewrite app_nil_r in HS1', HP1'.
+    exists (upd h cv (Live (BVal (ptr_of ns)))).
+    split.
+    { unfold set_val_string.
+      eapply bind_intro; [eapply load_val_ok; exact Hcv|]. cbn beta iota.
+      eapply bind_intro; [eapply store_ok; exact Hcv|]. reflexivity. }
+    split; [eapply SepC_equiv; [exact E2|exact HS1']|].
+    eapply PostC_equiv; [apply Equiv_refl | exact E2 | exact HP1'].
+Qed.
+
+Lemma cells_gopt_focus nm gp gd gc arr v1 cv os v2 spare :
+  cells_gopt (mkGOpt nm gp gd gc (Some (mkGVals arr (v1 ++ mkGVal cv os :: v2) spare))) =
+  (cells_str nm ++ cells_ostr gp ++ cells_ostr gd ++ cells_ostr gc ++
+   (arr, BArr ((words_of v1 ++ WPtr (Some cv) :: words_of v2) ++ spare)) :: flat_map cells_gval v1)
+  ++ (cv, BVal (ptr_of os)) :: cells_ostr os ++ flat_map cells_gval v2.
+Proof.
+  unfold cells_gopt. cbn [g_name g_parsed g_dstring g_comment g_vals cells_ovals].
+  rewrite cells_gvals_mk, words_of_app, words_of_cons, flat_map_app. cbn [flat_map gv_addr].
+  rewrite cells_gval_mk. cbn [app]. rewrite <- !app_assoc. cbn [app]. reflexivity.
+Qed.
+
+Lemma set_val_string_spec h k nm gp gd gc arr v1 cv os v2 spare (ns : option gstr) :
+  let g := mkGOpt nm gp gd gc (Some (mkGVals arr (v1 ++ mkGVal cv os :: v2) spare)) in
+  SepC h (cells_gopt g ++ cells_ostr ns) ->
+  exists h',
+    let g' := mkGOpt nm gp gd gc (Some (mkGVals arr (v1 ++ mkGVal cv ns :: v2) spare)) in
+    set_val_string (rec_of_gopt g) cv (ptr_of ns) (mkst h k) = Ok (rec_of_gopt g', Done tt) (mkst h' k) /\
+    SepC h' (cells_gopt g') /\ PostC h (cells_gopt g ++ cells_ostr ns) h' (cells_gopt g').
+Proof.
+  intros g HS. subst g. cbn zeta.
+  assert (Hrec : rec_of_gopt (mkGOpt nm gp gd gc (Some (mkGVals arr (v1 ++ mkGVal cv ns :: v2) spare))) =
+                 rec_of_gopt (mkGOpt nm gp gd gc (Some (mkGVals arr (v1 ++ mkGVal cv os :: v2) spare)))).
+  { rewrite !rec_of_gopt_mk. cbn [vals_ptr vals_len ga_addr ga_vals]. rewrite !app_length. reflexivity. }
+  rewrite Hrec. rewrite !cells_gopt_focus in *.
+  apply set_val_string_rule. exact HS.
+Qed.
+
+(* cfg_opt_setnstr after the copy: ns is the (owned) copy, or None when value == NULL.
+   Requests: realloc, calloc when a new slot is needed.  When cfg_opt_getval fails
+   the copy is released again. *)
+Lemma setnstr_after_copy_spec h k g (ns : option gstr) index :
+  SepC h (cells_gopt g ++ cells_ostr ns) ->
+  let nv := length (vals_list (g_vals g)) in
+  let n := if index <? nv then 0 else 2 in
+  exists h' g' out,
+    setnstr_after_copy (rec_of_gopt g) (ptr_of ns) index (mkst h k)
+      = Ok (rec_of_gopt g', out) (mkst h' (k - n)) /\
+    SepC h' (cells_gopt g') /\ PostC h (cells_gopt g ++ cells_ostr ns) h' (cells_gopt g') /\
+    same_strs g g' /\
+    match out with
+    | Failed => hits k n /\ abs_vals (g_vals g') = abs_vals (g_vals g)
+    | Done _ => ~ hits k n /\
+                abs_vals (g_vals g') =
+                if index <? nv then set_nth (abs_vals (g_vals g)) index (val_of ns)
+                else abs_vals (g_vals g) ++ [val_of ns]
+    end.
+Proof.
+  intros HS nv n. subst nv n.
+  pose proof (SepC_app_l _ _ _ HS) as HSg.
+  destruct (Nat.ltb_spec index (length (vals_list (g_vals g)))) as [Hlt|Hge].
+  - (* existing slot: no request *)
+    destruct g as [nm gp gd gc [[arr vs spare]|]]; cbn [g_vals vals_list length] in *; [|lia].
+    destruct (split_at _ vs index Hlt) as (v1 & [cv os] & v2 & -> & <-).
+    destruct (set_val_string_spec h k nm gp gd gc arr v1 cv os v2 spare ns HS)
+      as (h' & Hrun & HS' & HP).
+    cbn zeta in *.
+    exists h', (mkGOpt nm gp gd gc (Some (mkGVals arr (v1 ++ mkGVal cv ns :: v2) spare))), (Done tt).
+    split.
+    { unfold setnstr_after_copy, cfg_opt_getval.
+      rewrite rec_of_gopt_mk. cbn [o_nvalues o_values vals_len vals_ptr ga_vals ga_addr].
+      replace (length (v1 ++ mkGVal cv os :: v2) <=? length v1) with false
+        by (symmetry; apply Nat.leb_gt; rewrite app_length; cbn; lia).
+      destruct HSg as [HH _]. rewrite cells_gopt_mk in HH. cbn [cells_ovals] in HH.
+      rewrite cells_gvals_mk in HH. hsplit HH. destruct HH as (_ & _ & _ & _ & Harr & _).
+      cbn [fst snd] in Harr. rewrite words_of_app, words_of_cons in Harr. cbn [gv_addr] in Harr.
+      eapply bind_intro.
+      { eapply bind_intro; [eapply load_word_ok; [exact Harr | apply nth_error_words']|].
+        cbn beta iota. reflexivity. }
+      cbn beta iota. rewrite Nat.sub_0_r. exact Hrun. }
+    split; [exact HS'|]. split; [exact HP|]. split; [repeat split|].
+    split; [unfold hits; lia|].
+    cbn [g_vals abs_vals ga_vals].
+    change (val_of ns) with ((fun x => val_of (gv_str x)) (mkGVal cv ns)).
+    rewrite set_nth_map_app. reflexivity.
+  - (* a new slot is needed: cfg_addval, with the copy framed out *)
+    assert (Hleb : (o_nvalues (rec_of_gopt g) <=? index) = true)
+      by (apply Nat.leb_le; destruct g as [? ? ? ? [[]|]]; cbn in *; lia).
+    destruct (addval_spec h k g HSg) as (h1 & g1 & out1 & Hrun1 & HS1 & HP1 & Hsame1 & Hout1).
+    destruct (frame_rule_r _ _ _ _ _ HS HS1 HP1) as [HS1x HP1x].
+    destruct out1 as [cv|].
+    + destruct Hout1 as [Hnh [arr1 Hv1]].
+      destruct g1 as [nm1 gp1 gd1 gc1 vals1]. cbn [g_vals] in Hv1. subst vals1.
+      destruct (set_val_string_spec h1 (k - 2) nm1 gp1 gd1 gc1 arr1 (vals_list (g_vals g)) cv None [] [] ns HS1x)
+        as (h' & Hrun & HS' & HP).
+      cbn zeta in *.
+      exists h', (mkGOpt nm1 gp1 gd1 gc1 (Some (mkGVals arr1 (vals_list (g_vals g) ++ [mkGVal cv ns]) []))), (Done tt).
+      split.
+      { unfold setnstr_after_copy, cfg_opt_getval. rewrite Hleb.
+        eapply bind_intro; [exact Hrun1|]. cbn beta iota. exact Hrun. }
+      split; [exact HS'|]. split; [eapply PostC_trans; [exact HP1x|exact HP]|].
+      split.
+      { destruct Hsame1 as (A & B & C & D). cbn in *. repeat split; assumption. }
+      split; [exact Hnh|].
+      cbn [g_vals abs_vals ga_vals].
+      assert (Habs : map (fun x => val_of (gv_str x)) (vals_list (g_vals g)) = abs_vals (g_vals g))
+        by (destruct (g_vals g); reflexivity).
+      rewrite map_app, Habs. reflexivity.
+    + destruct Hout1 as [Hh Hv].
+      destruct ns as [[na nst]|]; cbn [cells_ostr cells_str ptr_of fst snd] in *.
+      * (* if (!val) { free(newstr); return CFG_FAIL; } *)
+        destruct (free_rule _ _ _ _ HS1x) as (Hna & HS2 & HP2).
+        exists (upd h1 na Freed), g1, Failed. split.
+        { unfold setnstr_after_copy, cfg_opt_getval. rewrite Hleb.
+          eapply bind_intro; [exact Hrun1|]. cbn beta iota.
+          unfold free_ptr. eapply bind_intro; [eapply free_ok; exact Hna|]. reflexivity. }
+        split; [exact HS2|]. split; [eapply PostC_trans; [exact HP1x|exact HP2]|].
+        split; [exact Hsame1|]. split; [exact Hh|exact Hv].
+      * rewrite app_nil_r in *.
+        exists h1, g1, Failed. split.
+        { unfold setnstr_after_copy, cfg_opt_getval. rewrite Hleb.
+          eapply bind_intro; [exact Hrun1|]. reflexivity. }
+        split; [exact HS1|]. split; [exact HP1|].
+        split; [exact Hsame1|]. split; [exact Hh|exact Hv].
+Qed.
+
+Lemma malloc_any h k b : k <> 1 ->
+  malloc b (mkst h k) = Ok (Some (length h)) (mkst (h ++ [Live b]) (k - 1)).
+Proof.
+  intros Hk. destruct k as [|[|k]]; [reflexivity | congruence | reflexivity].
+Qed.
+
+(* cfg_opt_setnstr: requests = [strdup if value], then [realloc, calloc if index >= nvalues] *)
 Lemma setnstr_spec h k g value index :
   SepC h (cells_gopt g) ->
   let nv := length (vals_list (g_vals g)) in
@@ -737,9 +987,7 @@ Lemma setnstr_spec h k g value index :
     SepC h' (cells_gopt g') /\ PostC h (cells_gopt g) h' (cells_gopt g') /\
     same_strs g g' /\
     match out with
-    | Failed => hits k n /\
-                abs_vals (g_vals g') =
-                if (nv <=? index) && (k =? 3) then abs_vals (g_vals g) ++ [None] else abs_vals (g_vals g)
+    | Failed => hits k n /\ abs_vals (g_vals g') = abs_vals (g_vals g)
     | Done _ => ~ hits k n /\
                 abs_vals (g_vals g') =
                 if index <? nv then set_nth (abs_vals (g_vals g)) index value
@@ -747,75 +995,37 @@ Lemma setnstr_spec h k g value index :
     end.
 Proof.
   intros HS nv n. subst nv n. unfold nreq_setnstr.
-  destruct (Nat.ltb_spec index (length (vals_list (g_vals g)))) as [Hlt|Hge].
-  - (* existing slot *)
-    destruct g as [nm gp gd gc [[arr vs spare]|]]; cbn [g_vals vals_list length] in *; [|lia].
-    destruct (split_at _ vs index Hlt) as (v1 & [cv os] & v2 & -> & <-).
-    destruct (set_val_string_spec h k nm gp gd gc arr v1 cv os v2 spare value HS)
-      as (h' & os' & out & Hrun & HS' & HP & Hout).
-    cbn zeta in *.
-    exists h', (mkGOpt nm gp gd gc (Some (mkGVals arr (v1 ++ mkGVal cv os' :: v2) spare))), out.
-    split.
-    { unfold cfg_opt_setnstr, cfg_opt_getval.
-      rewrite rec_of_gopt_mk. cbn [o_nvalues o_values vals_len vals_ptr ga_vals ga_addr].
-      replace (length (v1 ++ mkGVal cv os :: v2) <=? length v1) with false
-        by (symmetry; apply Nat.leb_gt; rewrite app_length; cbn; lia).
-      destruct HS as [HH _]. rewrite cells_gopt_mk in HH. cbn [cells_ovals] in HH.
-      rewrite cells_gvals_mk in HH. hsplit HH. destruct HH as (_ & _ & _ & _ & Harr & _).
-      cbn [fst snd] in Harr. rewrite words_of_app, words_of_cons in Harr. cbn [gv_addr] in Harr.
-      eapply bind_intro.
-      { eapply bind_intro; [eapply load_word_ok; [exact Harr | apply nth_error_words']|].
-        cbn beta iota. reflexivity. }
-      cbn beta iota. exact Hrun. }
-    split; [exact HS'|]. split; [exact HP|]. split; [repeat split|].
-    cbn [g_vals abs_vals ga_vals].
-    assert (Hle : (length (v1 ++ mkGVal cv os :: v2) <=? length v1) = false)
-      by (apply Nat.leb_gt; rewrite app_length; cbn; lia).
-    rewrite Hle. cbn [andb].
-    destruct out as [[]|]; destruct Hout as [Hh Hv]; (split; [exact Hh|]).
-    + rewrite <- Hv.
-      change (val_of os') with ((fun x => val_of (gv_str x)) (mkGVal cv os')).
-      rewrite set_nth_map_app. reflexivity.
-    + subst os'. reflexivity.
-  - (* a new slot is needed: cfg_addval *)
-    destruct (addval_spec h k g HS) as (h1 & g1 & out1 & Hrun1 & HS1 & HP1 & Hsame1 & Hout1).
-    destruct out1 as [cv|].
-    + destruct Hout1 as [Hnh [arr1 Hv1]].
-      destruct g1 as [nm1 gp1 gd1 gc1 vals1]. cbn [g_vals] in Hv1. subst vals1.
-      destruct (set_val_string_spec h1 (k - 2) nm1 gp1 gd1 gc1 arr1 (vals_list (g_vals g)) cv None [] [] value HS1)
-        as (h' & os' & out & Hrun & HS' & HP & Hout).
-      cbn zeta in *.
-      exists h', (mkGOpt nm1 gp1 gd1 gc1 (Some (mkGVals arr1 (vals_list (g_vals g) ++ [mkGVal cv os']) []))), out.
-      split.
-      { unfold cfg_opt_setnstr, cfg_opt_getval.
-        replace (o_nvalues (rec_of_gopt g) <=? index) with true
-          by (symmetry; apply Nat.leb_le; destruct g as [? ? ? ? [[]|]]; cbn in *; lia).
-        eapply bind_intro; [exact Hrun1|]. cbn beta iota.
-        replace (k - (2 + nreq_value value)) with (k - 2 - nreq_value value) by lia.
-        exact Hrun. }
-      split; [exact HS'|]. split; [eapply PostC_trans; eauto|].
-      split.
-      { destruct Hsame1 as (A & B & C & D). cbn in *. repeat split; assumption. }
-      cbn [g_vals abs_vals ga_vals].
-      assert (Habs : map (fun x => val_of (gv_str x)) (vals_list (g_vals g)) = abs_vals (g_vals g))
-        by (destruct (g_vals g); reflexivity).
-      rewrite map_app, Habs. cbn [map gv_str].
-      replace (length (vals_list (g_vals g)) <=? index) with true by (symmetry; apply Nat.leb_le; lia).
-      cbn [andb]. unfold hits in *.
-      destruct out as [[]|]; destruct Hout as [Hh Hv].
-      * split; [destruct value; cbn [nreq_value] in *; lia|]. rewrite Hv. reflexivity.
-      * split; [destruct value; cbn [nreq_value] in *; lia|]. subst os'.
-        replace (k =? 3) with true; [reflexivity|].
-        symmetry. apply Nat.eqb_eq. destruct value; cbn [nreq_value] in *; lia.
-    + destruct Hout1 as [Hh Hv].
-      exists h1, g1, Failed. split.
-      { unfold cfg_opt_setnstr, cfg_opt_getval.
-        replace (o_nvalues (rec_of_gopt g) <=? index) with true
-          by (symmetry; apply Nat.leb_le; destruct g as [? ? ? ? [[]|]]; cbn in *; lia).
-        eapply bind_intro; [exact Hrun1|]. cbn beta iota. unfold ret.
-        replace (k - (2 + nreq_value value)) with (k - 2) by (unfold hits in Hh; lia). reflexivity. }
-      split; [exact HS1|]. split; [exact HP1|]. split; [exact Hsame1|].
-      split; [unfold hits in *; lia|].
-      replace (k =? 3) with false by (symmetry; apply Nat.eqb_neq; unfold hits in Hh; lia).
-      rewrite andb_false_r. exact Hv.
+  destruct value as [s|]; cbn [nreq_value].
+  - (* value != NULL : the copy is request 1 *)
+    destruct (Nat.eq_dec k 1) as [Hk|Hk].
+    + subst k. exists h, g, Failed. split.
+      { unfold cfg_opt_setnstr, strdup.
+        eapply bind_intro; [apply malloc_fail|]. cbn beta iota. unfold ret.
+        replace (1 - _) with 0 by lia. reflexivity. }
+      split; [exact HS|]. split; [apply PostC_refl; apply HS|]. split; [repeat split|].
+      split; [unfold hits; lia|reflexivity].
+    + destruct (alloc_rule h _ (BStr s) HS) as [HS0 HP0].
+      destruct (setnstr_after_copy_spec (h ++ [Live (BStr s)]) (k - 1) g (Some (length h, s)) index HS0)
+        as (h' & g' & out & Hrun & HS' & HP & Hsame & Hout).
+      cbn zeta in Hrun, Hout. cbn [val_of snd ptr_of fst] in Hrun, Hout.
+      set (n0 := if index <? length (vals_list (g_vals g)) then 0 else 2) in *.
+      exists h', g', out. split.
+      { unfold cfg_opt_setnstr, strdup.
+        eapply bind_intro; [apply malloc_any; exact Hk|]. cbn beta iota.
+        replace (k - (n0 + 1)) with (k - 1 - n0) by lia. exact Hrun. }
+      split; [exact HS'|]. split; [eapply PostC_trans; [exact HP0|exact HP]|].
+      split; [exact Hsame|].
+      destruct out as [[]|]; destruct Hout as [Hh Hv]; (split; [unfold hits in *; lia|exact Hv]).
+  - (* value == NULL : newstr = NULL, nothing to copy *)
+    assert (HS0 : SepC h (cells_gopt g ++ cells_ostr None))
+      by (cbn [cells_ostr]; rewrite app_nil_r; exact HS).
+    destruct (setnstr_after_copy_spec h k g None index HS0)
+      as (h' & g' & out & Hrun & HS' & HP & Hsame & Hout).
+    cbn zeta in Hrun, Hout. cbn [val_of ptr_of cells_ostr] in Hrun, Hout, HP.
+    rewrite app_nil_r in HP.
+    set (n0 := if index <? length (vals_list (g_vals g)) then 0 else 2) in *.
+    exists h', g', out. split.
+    { unfold cfg_opt_setnstr. replace (k - (n0 + 0)) with (k - n0) by lia. exact Hrun. }
+    split; [exact HS'|]. split; [exact HP|]. split; [exact Hsame|].
+    destruct out as [[]|]; destruct Hout as [Hh Hv]; (split; [unfold hits in *; lia|exact Hv]).
 Qed.
